@@ -388,7 +388,8 @@ func apply(tx *gorm.DB, base *gorm.DB, p Part) *gorm.DB {
 	case "Joins":
 		return tx.Joins("JOIN ws AS w2 ON w2.id = ws.id AND "+strings.ReplaceAll(t, "c", "w2.c"), args...)
 	case "Select":
-		return tx.Select("id, ("+t+") AS flag", args...)
+		// (a question mark inside a quoted literal, after the placeholders, is text, not a placeholder)
+		return tx.Select("id, ("+t+") AS flag, '?' AS mark", args...)
 	case "Order":
 		return tx.Order(clause.OrderBy{Expression: clause.Expr{SQL: "(" + t + ") DESC", Vars: args}})
 	case "Clauses":
